@@ -1,12 +1,20 @@
 from . import constraints
 from .base import DiscreteDistribution, ContinuousDistribution
 from .. import astensors
-from functools import partial
 import math
 import torch
 
 
-_astensorsfloat = partial(astensors, conversion=lambda x: torch.tensor(x).float())
+def _astensorsfloat(*values):
+    # integer and boolean tensors (e.g. counts) are made floating point first, so they
+    # are never the reference non-tensor parameters are converted (and truncated) to
+    return astensors(
+        *(
+            v.float() if isinstance(v, torch.Tensor) and not v.is_floating_point() else v
+            for v in values
+        ),
+        conversion=lambda x: torch.tensor(x).float(),
+    )
 
 
 class Poisson(DiscreteDistribution):
